@@ -13,11 +13,18 @@
       explicit normalisation `normNode` of `t`, up to `canon` (token vs literal representation of
       names); `norm_idempotent`, `norm_idempotent_merged` (+ two counterexamples showing the
       hypotheses are needed);
+    * TREE level, exact and typed: `rt_preserves_typed_partial` — for plain trees of 26 languages
+      `RT cfg t` IS `normNodeTyped` of `t` (table rows of names included, typed content in its
+      typed normal form, elements called `Data` under `dataIsNormal`); the table facts behind "the
+      same row comes back" (`tag_tables_names_uniq`, `tag_tables_self_find`,
+      `tag_tables_tokens_uniq_partial`, `exact_row_main`); `build_reconstructs_data`;
+      `norm_typed_idempotent`;
     * SECOND trip, Expat as a parameter (`ReadsBack`): `printed_is_render_partial`,
       `xml_read_back_partial`, `rt2_tree_partial`, `rt_same_norm_partial`, `rt2_is_rt1_partial`
-      (converting twice = converting once at tree and event level), and the witnesses
-      `rt2_bytes_differ_hollow` / `rt2_bytes_differ_adjacent_text` that octet-by-octet equality of
-      the two WBXML documents is false as it stands.
+      (converting twice = converting once at tree and event level), `rt2_is_rt1_ns_partial` (the
+      same for the languages WITH a namespace table, `ReadsBackNs`, exact tree equality), and the
+      witnesses `rt2_bytes_differ_hollow` / `rt2_bytes_differ_adjacent_text` that octet-by-octet
+      equality of the two WBXML documents is false as it stands.
   Not proved: see the note at the end.
 -/
 import Wbxml.Props.C06
@@ -628,6 +635,31 @@ theorem rt_preserves_typed_partial (cfg : X2WCfg) (t : Tree) (bs : Bytes) (lang 
   rw [run_doc_d main _ (pcfgOf main forced metaCs) d lang h1
     (dataOkDoc_of_normal _ d lang h1 (by rw [hx]; exact hdata)), hx]
 
+/-- `rt_preserves_typed_partial` in the 20 languages without typed content (`untypedLang`: all but
+    WV, DRMREL, the three SyncML representation protocols, SI, EMN, OTA): no source hypothesis
+    besides "plain tree" and `dataIsNormal` is needed (`C06.typed_hyps_untyped`). This extends
+    `rt_preserves_partial` to trees with elements called `Data` and replaces `canon` by equality. -/
+theorem rt_preserves_exact_untyped (cfg : X2WCfg) (t : Tree) (bs : Bytes) (lang : Lang) (r : Node)
+    (hlang : t.lang = some lang) (hroot : t.root = some r)
+    (hl : langOk lang = true) (htl : typedLangOk lang = true) (hover : treeOver lang t = true)
+    (h : treeToWbxml cfg t = .ok bs) (hu : untypedLang lang.id = true)
+    (hpn : plainNode r = true) (hnw : isWv lang.id = false) (hno : (lang.id == 1901) = false)
+    (hvs : valSemOk lang = true) (has : attrSemOk lang = true) (han : attrNameSemOk lang = true)
+    (hdata : dataIsNormal (normNodeTyped (dcfgOf cfg lang) r) = true) :
+    ∃ d : Doc, bs = Spec.ser d ∧
+      ∀ (main : List Lang) (f forced metaCs : Nat),
+        headerLang (pcfgOf main forced metaCs) d.hdr = some lang →
+        (headerCharset (pcfgOf main forced metaCs) d.hdr = 3 ∨ headerCharset (pcfgOf main forced metaCs) d.hdr = 106) →
+        cfg.version < 256 → bs.length < 4294967296 →
+        treeOfWbxml main (f + 1) forced metaCs bs =
+          .ok { lang := main.find? (fun x => x.id == lang.id),
+                origCharset := headerCharset (pcfgOf main forced metaCs) d.hdr,
+                root := some (normNodeTyped (dcfgOf cfg lang) r) } := by
+  obtain ⟨h1, h2, h3, h4⟩ := C06.typed_hyps_untyped cfg lang r hu
+  obtain ⟨d, hs, hk⟩ := rt_preserves_typed_partial cfg t bs lang r hlang hroot hl htl hover h h1 h2 h3 h4 hpn hnw hno
+    hvs has han hdata
+  exact ⟨d, hs, fun main f forced metaCs a1 a2 a3 a4 => (hk main f forced metaCs a1 a2 a3 a4).2⟩
+
 /-- Every token element name of every language of the library except ActiveSync's
     `RequireStorageCardEncryption` comes back from the round trip as the SAME table row
     (`exactName … = .token r`); that one comes back as `DeviceEncryptionEnabled`
@@ -645,6 +677,40 @@ theorem exact_row_main (l : Lang) (hl : l ∈ Gen.main) (tags : List TagRow) (ht
   have := hu r hr
   rw [ha, Bool.or_false, beq_iff_eq] at this
   exact exactName_token l tags ht r this nm
+
+/-- **`attr_start_row_spec`: which attribute start row the encoder picks** (the row behind
+    `exactAName` / `xAttr`). For a literal attribute name `startRow` is the row
+    `wbxml_tables_get_attr_from_xml` picks for (name, value) as C strings, and that is, in closed
+    form: the FIRST row in table order with that name whose value IS the value; otherwise the first
+    row with the LONGEST non-empty proper value prefix; otherwise the first row with that name and
+    no value; otherwise none (the name is written as a literal). For a token name it is the name's
+    own row when its value prefix matches, none otherwise (`startRow_token`). -/
+theorem attr_start_row_spec (c : WCfg) (a : Attr) (s : Bytes) (ha : a.name = .literal s) (hs : s.isEmpty = false)
+    (attrs : List AttrRow) (hattrs : c.lang.attrs = some attrs) :
+    startRow c a =
+      match attrs.find? (isExactRow (cstrOf s) (cstrOf a.value)) with
+      | some e => some e
+      | none =>
+        if 0 < maxFrom (cstrOf s) (cstrOf a.value) 0 attrs then
+          attrs.find? (fun r => preLenOf (cstrOf s) (cstrOf a.value) r == maxFrom (cstrOf s) (cstrOf a.value) 0 attrs)
+        else attrs.find? (isNullRow (cstrOf s)) := by
+  rw [startRow_literal c a s ha hs attrs hattrs, encAttr_choice]
+  cases attrs.find? (isExactRow (cstrOf s) (cstrOf a.value)) with
+  | some e => rfl
+  | none =>
+    simp only
+    split
+    · cases attrs.find? (fun r => preLenOf (cstrOf s) (cstrOf a.value) r == maxFrom (cstrOf s) (cstrOf a.value) 0 attrs) <;> rfl
+    · cases attrs.find? (isNullRow (cstrOf s)) <;> rfl
+
+/-- **The exact normal form refines the earlier one**: in a plain language (the 21 of
+    `rt_preserves_partial`) forgetting the representation of names turns `normNodeTyped` into
+    `normNode` — so `rt_preserves_partial`'s `canon r' = normNode c r` is what
+    `rt_preserves_typed_partial` says after `canon`, and the two normalisations are consistent. -/
+theorem norm_typed_refines_norm (c : WCfg) (hpl : plainLang c.lang = true) (hnta : noTypedAttr c.lang.id = true)
+    (hts : tagSemOk c.lang = true) (han : attrNameSemOk c.lang = true) (r : Node)
+    (hov : nodeOver c.lang r = true) (hp : plainNode r = true) : canon (normNodeTyped c r) = normNode c r :=
+  canon_normNodeTyped c hpl hnta hts han r hov hp
 
 /-- **The typed exact normalisation is idempotent** where the per-form normal forms are: on trees
     whose names are in round-trip form, whose attributes and texts are fixed points of `xAttr` /
@@ -669,8 +735,8 @@ theorem norm_typed_idempotent (c : WCfg) (r : Node) (h : fixedNode c none none 0
     `normal` at every printed text (`dataOkX`: SyncML `<Data>200</Data>` included), then
     `wbxml_tree_from_xml` succeeds, and whenever the encoder accepts its tree, the tree
     `wbxml_tree_from_wbxml` builds from the second WBXML document is EXACTLY the first one: same
-    language entry, same root `N` — same table rows, same text. Converting twice gives the tree
-    that converting once gives.
+    language entry, same root `N` — same table rows, same text — and printing it gives the SAME XML
+    text again (`rt_idem` proper). Converting twice gives what converting once gives.
     `_partial`: token elements only, no attributes, no binary-flagged element; compact / canonical
     output; octet identity of the two WBXML documents is not claimed (false as it stands, see
     `rt2_bytes_differ_hollow`). -/
@@ -710,7 +776,12 @@ theorem rt2_is_rt1_ns_partial (cfg : X2WCfg) (t : Tree) (bs : Bytes) (lang : Lan
                     treeOfWbxml main (f2 + 1) forced2 meta2 bs2 =
                       .ok { lang := main.find? (fun x => x.id == lang.id),
                             origCharset := headerCharset (pcfgOf main forced2 meta2) d2.hdr,
-                            root := some (normNodeTyped (dcfgOf cfg lang) r) } := by
+                            root := some (normNodeTyped (dcfgOf cfg lang) r) } ∧
+                    ∀ (fuel3 : Nat) (xml3 : Bytes),
+                      treeToXml xcfg fuel3 { lang := main.find? (fun x => x.id == lang.id),
+                                             origCharset := headerCharset (pcfgOf main forced2 meta2) d2.hdr,
+                                             root := some (normNodeTyped (dcfgOf cfg lang) r) } = .ok xml3 →
+                      xml3 = xml := by
   obtain ⟨d, hs, hk1⟩ := rt_preserves_typed_partial cfg t bs lang r hlang hroot hl htl hover h hcdata hdt hb64 hkv
     hpn hnw hno hvs has han hdata
   refine ⟨d, hs, ?_⟩
@@ -742,7 +813,9 @@ theorem rt2_is_rt1_ns_partial (cfg : X2WCfg) (t : Tree) (bs : Bytes) (lang : Lan
   intro f2 forced2 meta2 b1 b2 hz2
   have := (hk2 main f2 forced2 meta2 b1 b2 hver hz2).2
   rw [hR] at this
-  exact this
+  refine ⟨this, ?_⟩
+  intro fuel3 xml3 hx3
+  exact treeToXml_same xcfg _ _ fuel3 fuel xml3 xml rfl rfl hx3 hx
 
 /-! ## Non-vacuity -/
 
@@ -945,6 +1018,15 @@ example : typedChecks Gen.lang8 exSi = true ∧ typedChecks Gen.lang13 exDrm = t
         .elt (.token ⟨b!"ConversationId", 15, 32, 1⟩) [] [.text [3, 0, 4]]]) = true := by
   decide +kernel
 
+/-- `attr_start_row_spec` on SI 1.0 (rows for `href`: no value, `http://www.`, `http://`,
+    `https://www.`, `https://`): `href="http://www.example.org/"` picks the row with the longest prefix
+    `http://www.`, an exact value wins, a value without any matching prefix falls back to the
+    value-less row, an unknown name has no row. -/
+example : (startRow (dcfgOf {} Gen.lang8) ⟨.literal b!"href", b!"http://www.example.org/"⟩).map (·.value) = some (some b!"http://www.") ∧
+    (startRow (dcfgOf {} Gen.lang8) ⟨.literal b!"href", b!"http://"⟩).map (·.value) = some (some b!"http://") ∧
+    (startRow (dcfgOf {} Gen.lang8) ⟨.literal b!"href", b!"x"⟩).map (·.value) = some none ∧
+    (startRow (dcfgOf {} Gen.lang8) ⟨.literal b!"nosuch", b!"x"⟩) = none := by decide +kernel
+
 /-! ### Second trip: non-vacuity and witnesses -/
 
 /-- `<wml><card id="a"> Hi there<b>x</b>  </card></wml>`: as `exWml`, without adjacent text nodes
@@ -1039,6 +1121,88 @@ theorem rt2_bytes_differ_hollow :
 theorem rt2_bytes_differ_adjacent_text :
     (twoTrips exWml).map (fun p => (p.1 == p.2.2.1, p.2.1 == p.2.2.2)) = some (false, true) := by decide +kernel
 
+/-! ### Second trip in a language with a namespace table: non-vacuity -/
+
+/-- A SyncML 1.2 message with two code pages (`MaxMsgSize` is MetInf) and a status `Data`, as
+    `wbxml_tree_from_xml` delivers it (token names). -/
+def exStatusT : Tree where
+  lang := some Gen.lang15
+  origCharset := 106
+  root := some (.elt (.token ⟨b!"SyncML", 0, 0x2D, 0⟩) [] [
+    .elt (.token ⟨b!"SyncHdr", 0, 0x2C, 0⟩) [] [
+      .elt (.token ⟨b!"Meta", 0, 0x1A, 0⟩) [] [
+        .elt (.token ⟨b!"MaxMsgSize", 1, 0x0C, 0⟩) [] [.text b!"5000"]]],
+    .elt (.token ⟨b!"SyncBody", 0, 0x2B, 0⟩) [] [
+      .elt (.token ⟨b!"Status", 0, 0x29, 0⟩) [] [
+        .elt (.token ⟨b!"CmdID", 0, 0x0B, 0⟩) [] [.text b!"1"],
+        .elt (.token ⟨b!"Cmd", 0, 0x0A, 0⟩) [] [.text b!"SyncHdr"],
+        .elt (.token ⟨b!"Data", 0, 0x0F, 0⟩) [] [.text b!" 200 "]],
+      .elt (.token ⟨b!"Final", 0, 0x12, 0⟩) [] []]])
+
+/-- Both trips under the library's table and default options, the namespace-aware run for the
+    printed text being the canonical reading (`xmlEventsNs`, cf. `readsBackNs_canonical`):
+    the printed XML, whether the first and the third tree are `normNodeTyped` of the source, and
+    whether the two WBXML documents are equal. -/
+def twoTripsNs (t : Tree) (lang : Lang) : Option (Bytes × Bool × Bool × Bool) :=
+  match treeToWbxml {} t with
+  | .ok w1 =>
+    match treeOfWbxml Gen.main (w1.length + 1) 0 0 w1 with
+    | .ok t' =>
+      match treeToXml exXcfg t'.xmlFuel t' with
+      | .ok xml =>
+        let evs := xmlDeclEv :: docTypeOf lang :: xmlEventsNs (xcfgOf exXcfg lang) .none none (rootOr t')
+        match treeOfXml Gen.main [(xml, { ok := true, events := evs })] 3 xml with
+        | .ok t'' =>
+          match treeToWbxml {} t'' with
+          | .ok w2 =>
+            (match treeOfWbxml Gen.main (w2.length + 1) 0 0 w2 with
+             | .ok t3 => some (xml, plainEq (rootOr t') (normNodeTyped (dcfgOf {} lang) (rootOr t)),
+                 plainEq (rootOr t3) (normNodeTyped (dcfgOf {} lang) (rootOr t)) && t3.lang == t'.lang, w1 == w2)
+             | .error _ => none)
+          | .error _ => none
+        | _ => none
+      | .error _ => none
+    | .error _ => none
+  | .error _ => none
+
+/-- All hypotheses of `rt2_is_rt1_ns_partial` that concern the source tree, the language and the
+    options hold for the SyncML message (compact XML, default encoder options) … -/
+example : Gen.lang15.ns.isSome = true ∧ (Gen.lang15.id == 1801) = false ∧ treeOver Gen.lang15 exStatusT = true ∧
+    C06.typedHyps {} Gen.lang15 (rootOr exStatusT) = true ∧ plainNode (rootOr exStatusT) = true ∧
+    dataIsNormal (normNodeTyped (dcfgOf {} Gen.lang15) (rootOr exStatusT)) = true ∧
+    fixedNode (dcfgOf {} Gen.lang15) none none 0 (rootOr exStatusT) = true ∧
+    nsReadable Gen.lang15 (normNodeTyped (dcfgOf {} Gen.lang15) (rootOr exStatusT)) = true ∧
+    docTypeFinds Gen.main Gen.lang15 = true ∧ flagsOk (xcfgOf exXcfg Gen.lang15) (dcfgOf {} Gen.lang15) = true ∧
+    dataOkX (xcfgOf exXcfg Gen.lang15) [] (normNodeTyped (dcfgOf {} Gen.lang15) (rootOr exStatusT)) = true := by
+  decide +kernel
+
+/-- ActiveSync (two code pages, `AirSync:` and `Provision:`): the hypotheses of
+    `rt2_is_rt1_ns_partial` hold as well. -/
+def exAsT : Tree where
+  lang := some Gen.lang27
+  origCharset := 106
+  root := some (.elt (.token ⟨b!"Sync", 0, 5, 0⟩) [] [
+    .elt (.token ⟨b!"SyncKey", 0, 11, 0⟩) [] [.text b!" 12 "],
+    .elt (.token ⟨b!"DeviceEncryptionEnabled", 14, 16, 0⟩) [] [.text b!"1"]])
+
+example : Gen.lang27.ns.isSome = true ∧ (Gen.lang27.id == 1801) = false ∧ treeOver Gen.lang27 exAsT = true ∧
+    C06.typedHyps {} Gen.lang27 (rootOr exAsT) = true ∧ plainNode (rootOr exAsT) = true ∧
+    dataIsNormal (normNodeTyped (dcfgOf {} Gen.lang27) (rootOr exAsT)) = true ∧
+    fixedNode (dcfgOf {} Gen.lang27) none none 0 (rootOr exAsT) = true ∧
+    nsReadable Gen.lang27 (normNodeTyped (dcfgOf {} Gen.lang27) (rootOr exAsT)) = true ∧
+    docTypeFinds Gen.main Gen.lang27 = true ∧ flagsOk (xcfgOf exXcfg Gen.lang27) (dcfgOf {} Gen.lang27) = true ∧
+    dataOkX (xcfgOf exXcfg Gen.lang27) [] (normNodeTyped (dcfgOf {} Gen.lang27) (rootOr exAsT)) = true := by
+  decide +kernel
+
+/-- `ReadsBackNs` is satisfiable: for every plain tree, in a generation mode other than indent. -/
+example (xml : Bytes) (c : XCfg) (t : Tree) (r : Node) (hr : t.root = some r) (hp : plainNode r = true) (hg : c.gen ≠ 1) :
+    ReadsBackNs [(xml, { ok := true, events := xmlDeclEv :: docTypeOf c.lang :: xmlEventsNs c .none none r })] xml c t :=
+  readsBackNs_canonical xml c t r hr hp hg
+
+/-- The languages with a namespace table `rt2_is_rt1_ns_partial` speaks about (9 of 29). -/
+example : (Gen.main.filter (fun l => l.ns.isSome && !(l.id == 1801) && !isWv l.id && !(l.id == 1901))).map (·.id) =
+    [2201, 2202, 2204, 2101, 2102, 2001, 2002, 2401, 2402] := by decide +kernel
+
 /-!
   ## What is still missing (kept visible, not claimed)
 
@@ -1047,44 +1211,71 @@ theorem rt2_bytes_differ_adjacent_text :
       rt_preserves : accepted cfg t → treeOfWbxml main fuel 0 0 (treeToWbxml cfg t) = .ok (norm cfg t)
       rt_idem      : RT (RT x) = RT x   (XML text to XML text)
 
-  Proved above: `rt_preserves_partial` (`canon r' = normNode c r`, `r'` explicit, in normal form),
-  `norm_idempotent`, `rt2_tree_partial`, `rt2_is_rt1_partial`. The former item 1 of this list (the
-  builder over balanced events) is done for every item kind (`build_reconstructs`), under
-  `noDataEvents`. Still to be proved, each with the lemma that is missing:
+  Proved above — first trip: `rt_preserves_typed_partial` (EXACT equality with `normNodeTyped`, typed
+  content, `Data` elements through `dataIsNormal`, 26 languages; `rt_preserves_exact_untyped`) and
+  the older `rt_preserves_partial` (`canon r' = normNode c r`, 21 plain languages, no `Data`;
+  `norm_typed_refines_norm`: `canon (normNodeTyped c r) = normNode c r` there);
+  `build_reconstructs(_data)`; the normal forms are idempotent (`norm_idempotent(_merged)`,
+  `norm_typed_idempotent`); second trip: `rt2_tree_partial`, `rt2_is_rt1_partial` (14 languages
+  without namespace table) and `rt2_is_rt1_ns_partial` (9 languages with one: SyncML family,
+  ActiveSync; exact tree equality). Former items 1–4 and 6(a) of this list are done:
 
-    1. EXACT table rows instead of `canon`. `rt_preserves_partial` identifies the round-trip tree
-       up to the representation of names. Element names: needs `tagNamesUniq lang` (a table fact:
-       no two rows of the tag table share a name; then the reader's row
-       `tagRow ctx page token` IS the row `encTag` finds for the name) and, for `TagOk.lit`, the
-       converse of `foundOf` (`encTag … = none → no row has the name`). Attribute names: needs a
-       characterisation of the start token `attrStartW` / `encAttrGo` choose (longest value
-       prefix) as a function of name and value — `AStartOk` only says "some row with that name".
-    2. Elements called `Data` (`syncmlDataType`): character data below them may become a CDATA
-       node or, when `Type` says `+wbxml` and the text happens to parse, an embedded tree. Needs
-       `run_items` with a `syncmlDataType`-indexed case split and the XML-side counterpart.
-    3. The "earlier alias" normalisation for ActiveSync (`tagSemOk` fails there: two names share a
-       token; C08's `tagDecEnc` gives the first alias).
-    4. Typed content (`opqsDoc d ≠ []`: Wireless Village, DRMREL, SI, EMN, OTA, `NextNonce`): C12's
-       round-trip laws as side conditions per opaque, the known findings listed at
-       `C06.enc_is_ser_wf_partial` as exclusions.
-    5. CDATA sections and embedded documents in the source tree (written as OPAQUE; the reader's
-       view needs the nested document's own `denotes_source`).
-    6. Second trip: (a) languages with a namespace table (SyncML family, ActiveSync): `Reads` needs
-       the `ns|name` reporting of a namespace-aware reader and `xmlElt`'s page look-up;
-       (b) indented output: `Reads` needs the white-space `chars` events between elements and the
-       proof that `normText` drops / trims them (the XML TEXT of the second trip equal to the first,
-       `rt_idem` proper, IS proved within the scope: last clause of `rt2_is_rt1_partial`);
-       (c) octet-by-octet equality of the two WBXML documents is FALSE as it stands
+    * EXACT table rows (former 1, 3): `normNodeTyped` carries the representation of names
+      (`exactName`: the first row with the page and token of the row the encoder works with — the
+      same row except for ActiveSync's second alias, `exact_row_main`, `activesync_alias_first`;
+      `exactAName` of the start row `startRow` for attributes). Table facts:
+      `tag_tables_names_uniq` (`tagNamesUniqPerPage`, all 29 languages), `tag_tables_self_find` (the
+      converse of the encoder's name resolution), `tag_tables_tokens_uniq_partial`.
+    * `Data` (former 2): `dataIsNormal` (decidable, evaluated with the model's own
+      `syncmlDataType` on the frames the builder has when the text arrives) instead of "no element
+      is called `Data`"; SyncML status `<Data>200</Data>` is an example.
+    * Typed content (former 4): the round-trip tree has typed texts in their typed normal form
+      (`vText`: `normText` / raw octets under a binary-flagged tag / `b64Norm` under DRMREL
+      `ds:KeyValue`; `vAttrValue`: `datetimeNorm` under an SI / EMN `%Datetime` start token).
+
+  Still to be proved, each with the lemma that is missing:
+
+    1. Wireless Village 1.1/1.2 and OTA settings in `rt_preserves_typed_partial`: `encNode_seg`'s
+       typed view (`ViewT`, `TreeT`) excludes them (`wvContentW`'s position-dependent integer /
+       date-time typing and the OTA icon value need their own `vText` / `vAttrValue` branches;
+       `wvIntNorm` is idempotent, a `wvDateNorm` with idempotence does not exist in C12).
+    2. CDATA sections and embedded documents in the source tree (written as OPAQUE; the reader's
+       tree needs the nested document's own round-trip theorem and `st.cdata` accumulation as a
+       source function), and `Data` elements where `syncmlDataType` does NOT answer `normal`
+       (the builder opens a CDATA node / parses an embedded tree: `run_items_d` with the other
+       three `SyncType` cases).
+    3. `norm_typed_idempotent` is stated with the decidable per-form hypothesis `fixedNode`
+       (`nameFixed`, `attrFixed`, `textFixed`); proved per form: `textFixed_normal`,
+       `textFixed_binary`, `nameFixed_token`, `nameFixed_exact`. Missing as lemmas (they are
+       evaluated in the examples): `textFixed` under `ds:KeyValue` from `C06.base64_by_value`
+       (needs "the RFC 4648 text of ≥ 1 octet is non-empty, blank-free, NUL-free") and
+       `attrFixed` from `attrSemOk` + "the value prefix of a token name matches" +
+       `C06.datetime_by_value_canon`. Without `fixedNode` idempotence at the exact level is FALSE
+       for API-built trees: a literal element name `ds:KeyValue` that the table resolves makes
+       the second pass base64-normalise a text the first pass left alone; a token attribute name
+       whose value prefix does not match is written as a literal and re-resolved by the second
+       pass (both only for trees no XML reading produces).
+    4. Second trip: (a) literal elements, attributes and binary-flagged elements in the namespace
+       languages (`nsReadable` excludes them: needs `xmlElt`'s `encAttr` look-ups against
+       `startRow`, and the base64 text of binary-flagged content in `ReadsNs`); the printer's
+       SyncML media-type rewriting under `Type` is not in `printedText` (a tree with such a text
+       falsifies the assumption `ReadsBackNs`, so the theorem is vacuous, not wrong, there);
+       (b) indented output: `Reads`/`ReadsNs` need the white-space `chars` events between elements
+       (C07 `indent_read_back_same_up_to_blank_text_partial` has the compact-equivalent form);
+       (c) the XML TEXT of the second trip equal to the first IS proved in both scopes (last clause
+       of `rt2_is_rt1_partial` and of `rt2_is_rt1_ns_partial`; `treeToXml_same`: a successful
+       print depends neither on surplus fuel nor on the recorded charset);
+       (d) octet-by-octet equality of the two WBXML documents is FALSE as it stands
        (`rt2_bytes_differ_hollow`, `rt2_bytes_differ_adjacent_text`); for trees without such
        elements / text nodes it needs an encoder congruence
        (`normNode c a = normNode c b → encNodeG c p e a st = encNodeG c p e b st` up to `textNo`),
        including the string-table pre-pass.
-    7. `norm_idempotent` without hypothesis is false (`norm_not_idempotent_nul`,
+    5. `norm_idempotent` without hypothesis is false (`norm_not_idempotent_nul`,
        `norm_not_idempotent_syncml`); `norm_idempotent_merged` covers every language for trees
        without adjacent text nodes. Nothing missing here.
 
-  New observation (a defect candidate, not modelled away): a TAB or LF in an attribute value
-  (possible in a source document only as `&#9;` / `&#10;`) is written literally by
+  Observation kept from the first round (a defect candidate, not modelled away): a TAB or LF in an
+  attribute value (possible in a source document only as `&#9;` / `&#10;`) is written literally by
   `xml_encode_attr` in compact and indented mode; an XML reader normalises it to a space
   (XML 1.0 §3.3.3), so the second round trip differs from the first (`attrNormalize`,
   `attrReadable`). Same shape as the carriage-return defect fixed by 51380fd.
